@@ -174,7 +174,7 @@ def build_case(spec):
         return ProcessSequence(ps)
     params = {}
     for p in procs: params.update(p.get('params', {}))
-    return dict(strlabels=spec.get('strlabels', False), history=spec.get('history', []), fixed_proto=spec.get('fixed_proto', False), preattr=spec.get('preattr'), procs_json=procs, build=build, dyn=spec['dyn'], nodes=spec['nodes'], edges=[tuple(e) for e in spec['edges']], maxT=spec['maxT'],
+    return dict(sticky=spec.get('sticky', 0.0), strlabels=spec.get('strlabels', False), history=spec.get('history', []), fixed_proto=spec.get('fixed_proto', False), preattr=spec.get('preattr'), procs_json=procs, build=build, dyn=spec['dyn'], nodes=spec['nodes'], edges=[tuple(e) for e in spec['edges']], maxT=spec['maxT'],
                 seed=spec['seed'], params=params, specials=spec.get('specials', ()), pspecial=spec.get('pspecial', 0.0),
                 oracles=[ORACLES[o] for o in spec.get('oracles', [])], finals=[FINALS[o] for o in spec.get('oracles', []) if o in FINALS])
 
@@ -990,7 +990,8 @@ def gen_adddel(rnd, dyn=None, combo=None):
     if rnd.random() < 0.25 and seq != 'dict' and seq != 'bare': procs.append(dict(cls='Monitor', name=None, params={Monitor.DELTA: 1.0}))
     return dict(procs=procs, seq=seq, dyn=dyn or rnd.choice(['sto', 'sto', 'syn']), nodes=nodes, edges=edges, maxT=rnd.choice([2.0, 3.0, 5.0]),
                 seed=rnd.random(), specials=[0.25, 0.5], pspecial=0.1, combo=combo,
-                oracles=['clock', 'adddel'] if combo == 'seq' else ['clock', 'member', 'adddel'], maxevents=150)
+                oracles=['clock', 'adddel'] if combo == 'seq' else ['clock', 'member', 'adddel'], maxevents=150,
+                sticky=rnd.choice([0.0, 0.0, 0.9, 0.97, 0.99]))
 
 
 def oracle_adddel(d, ex, cur, t, p, name, e):
